@@ -176,6 +176,19 @@ def caseOf? : Term → Option Case
       pure (.hist (← globalOf? g) (normGroups (← gs.mapM groupOf?)) (← ps.mapM peerOf?) (← ops.mapM opOf?))
   | _ => none
 
+/-- run-time guard of the drivers: the well-formedness the master theorem assumes (`Props.CaseWF`).
+    `caseOf?` only produces such cases; the guard makes that independent of the parser. -/
+def octetsOk (l : List Nat) : Bool := l.all fun x => x < 256
+
+def wfCase : Case → Bool
+  | .neg .. => true
+  | .contains n a => octetsOk n.bytes && octetsOk a.bytes
+  | .hist g groups peers ops =>
+      (match g.confed with | some (id, _) => id != 0 | none => true)
+      && groups.all (fun gr => gr.nets.all fun n => decide (n.mask ≤ 8 * n.bytes.length) && octetsOk n.bytes)
+      && peers.all (fun pc => !pc.params.dyn)
+      && ops.all (fun op => match op with | .connect a _ => octetsOk a.bytes | _ => true)
+
 /-! ### observations -/
 
 def famStateT (s : FamState) : Term := list [nat s.fam, bool s.rx, bool s.tx]
